@@ -118,7 +118,7 @@ def main():
     ap.add_argument('--retry', default=None, help='re-run the mutants of an earlier report that were missed or hit a harness error')
     args = ap.parse_args()
     files = args.files.split(',')
-    cands = candidates('/repo', files)
+    cands = candidates(os.environ.get('VERIF_MUT_CAND', '/repo'), files)   # a clean checkout when /repo's working tree is in use
     rng = random.Random(args.seed)
     rng.shuffle(cands)
     # spread over files and operators
